@@ -1,4 +1,63 @@
 (* C05 — the case decoder / model runner / observable encoder is shared by the
-   three rolling-appender properties: Run/RollingRun.v. *)
-From L4 Require Import Common.Val Run.RollingRun.
-Definition c05_run : vl -> vl := rolling_run.
+   three rolling-appender properties: Run/RollingRun.v.
+   For cases meant for the `background_rotation` build (roller carries bg = 1) each
+   entry of a plain Append / Restart additionally lists the directories the
+   background-rotation machine (Model/RollingBg.v) can be in once the call has
+   returned: the store after the call's file-system operations with j = 0 .. all
+   of the rotation thread's steps done (by Proofs/RollingBg.v the interleaving
+   with the call's own later operations does not matter).  The harness's
+   "pending" snapshot must be one of them. *)
+From Coq Require Import List NArith Arith.
+Import ListNotations.
+From L4 Require Import Common.Val Common.FSRoll Model.Rolling Model.RollingFail Model.RollingBg Run.RollingRun.
+
+Definition probe_names (r : roller) : list bname :=
+  let '(b, k) := bk_of r in
+  BActive :: map BArch (seq 0 (b + k + 3)) ++ [BTemp 0].
+
+Definition enc_bname (n : bname) (v : bytes) : vl :=
+  match n with
+  | BActive => VL [VN 0; VN 0; VS v]
+  | BArch i => VL [VN 1; VN (N.of_nat i); VS v]
+  | BTemp _ => VL [VN 3; VN 0; VS v]
+  end.
+
+Definition enc_store (r : roller) (f : store) : vl :=
+  VL (flat_map (fun n => match f n with Some v => [enc_bname n v] | None => [] end) (probe_names r)).
+
+Definition bg_candidates (c : config) (o : op) (s : state) : list vl :=
+  let '(b, k) := bk_of (roll_by c) in
+  let prog := step_prog c o s 0 in
+  let '(rest, s1) := run_bg b k (repeat true (length prog)) prog (bg_init (to_store (files s))) in
+  match rest with
+  | [] => map (fun j => enc_store (roll_by c) (bfiles (Nat.iter j bg_step s1))) (seq 0 (S (length (infl s1))))
+  | _ :: _ => []
+  end.
+
+Fixpoint trace_bg (c : config) (ops : list xop) (s : state) : list vl :=
+  match ops with
+  | [] => []
+  | o :: ops' =>
+    let '(s1, ev, err) := xstep c o s in
+    let cands := match o with XOp o' => bg_candidates c o' s | _ => [] end in
+    VL [VL (flat_map enc_event ev); VL (map enc_file (files s1)); VB err; VL cands] :: trace_bg c ops' s1
+  end.
+
+Definition is_bg (r : vl) : bool :=
+  match r with
+  | VL [VN 1; _; _; _; _; VN 1] => true
+  | _ => false
+  end.
+
+Definition c05_run (v : vl) : vl :=
+  match v with
+  | VL [t; r; p; a; ops] =>
+    if is_bg r then
+      match dec_trigger t, dec_roller r, dec_pre p, val_bool a, val_list dec_op ops with
+      | Some tg, Some rl, Some pre, Some a0, Some os =>
+        VL (trace_bg {| trig := tg; roll_by := rl |} (XOp (Restart a0) :: os) (raw pre))
+      | _, _, _, _, _ => VBad
+      end
+    else rolling_run v
+  | _ => VBad
+  end.
